@@ -7,6 +7,7 @@ from ..report import AnalysisError
 from ..srcmodel import unparse, norm, walk_no_nested, calls_in, fold_const
 from .common import is_method_call, cfg_of, get_kw, recv_of, name_defs
 from . import mergerules as mr
+from . import unitrules
 from .tagtable import constructors
 from . import tr
 from . import mergetrace as mt
@@ -21,6 +22,7 @@ DECIDED = [
     'R2: _resolve_args: the index->name table admits only POSITIONAL_ONLY / POSITIONAL_OR_KEYWORD parameters (all 5 inspect kinds evaluated); an index beyond the table raises; the contiguous positional prefix is taken by position (pop by counting index), not by insertion order.',
     'R3: in FunctionNode.on_merge_impl every path that takes the target from the newer node is guarded by the newer node having priority (ties to the newer) and clears the old arguments unless the newer node is told to merge.',
     'R4: FunctionNode deletes by default (class default and explicit constructor default delete=True); tag forms: !call:name / !bind:name pass the suffix as func and the data as args, the bare forms pass the scalar as func.',
+    'R5: FunctionNode(func, args) evaluated on 11 argument shapes: target stored; arguments normalised to a mapping (positions for lists / tuples, position 0 for a scalar); a (func, args) pair with extra args and an empty target are rejected; delete defaults to True.',
 ]
 UNDECIDED = ['binding for arbitrary signatures and dynamic argument values as data;', 'import_name resolution.']
 KINDS = ['POSITIONAL_ONLY', 'POSITIONAL_OR_KEYWORD', 'VAR_POSITIONAL', 'KEYWORD_ONLY', 'VAR_KEYWORD']
@@ -335,11 +337,13 @@ def check(repo, run, tier):
     g(r3, repo, run)
     g(r3b, repo, run)
     g(r4, repo, run)
+    g(unitrules.function_node_init, repo, run, 'C13.R5')
     g.done()
 
 
 def mutants(repo):
     return [
+        Mutant('function-args-not-normalised', lambda r: in_func(r, 'FunctionNode.__init__', "if args is not None and not isinstance(args, dict):", "if args is None and not isinstance(args, dict):"), ['C13.R5']),
         Mutant('bind-returns-target-when-empty', lambda r: in_func(r, 'BindNode.ayns.on_evaluate_impl', "        return partial(_func, *p, **kw_p, **kw)", "        if not p and not kw_p and not kw:\n            return _func\n        return partial(_func, *p, **kw_p, **kw)"), ['C13.R1']),
         Mutant('call-drops-positions-bound-by-name', lambda r: in_func(r, 'CallNode.ayns.on_evaluate_impl', "return _func(*p, **kw_p, **kw)", "return _func(*p, **kw)"), ['C13.R1']),
         Mutant('bind-skips-strict-context', lambda r: in_func(r, 'BindNode.ayns.on_evaluate_impl', "        with ctx.require_all_safe(self, path):\n            args = ", "        if True:\n            args = "), ['C13.R1']),
